@@ -307,14 +307,26 @@ func (w *c04World) newEnd(node *miniNode, role string, id int64, secret string) 
 }
 
 func (w *c04World) victimListenOpen() error {
+	if err := w.victimListenPrepare(); err != nil {
+		return err
+	}
+	w.victimListenSend()
+	return nil
+}
+
+func (w *c04World) victimListenPrepare() error {
 	e, err := w.newEnd(w.nb, "victimL", w.L.ClientID, w.L.Secret)
 	if err != nil {
 		return err
 	}
 	w.vL = e
+	return nil
+}
+
+func (w *c04World) victimListenSend() {
+	e := w.vL
 	w.open(e, &packet.TunnelOpenRequest{MappingID: w.mapID, TunnelID: w.tunnel})
 	w.logf("victimL open: ack=%s err=%q", c04AckStr(e.ack), e.err)
-	return nil
 }
 
 func (w *c04World) victimTargetOpen() error {
@@ -360,6 +372,15 @@ func (w *c04World) setMapState() error {
 		// management API's status update does): still a revoked mapping
 		if err := w.n.CCS.RevokeMapping(w.mapID, w.T.ClientID, "verif"); err != nil {
 			return err
+		}
+		// the status update is a read-modify-write; its read must not be handed the
+		// pre-revocation value by the repository's singleflight (see the barrier in runCell)
+		for try := 0; try < 2000; try++ {
+			if m, err := w.n.CC.GetPortMapping(w.mapID); err == nil && m.IsRevoked {
+				break
+			}
+			w.run.Count("map_state_reread", 1)
+			time.Sleep(500 * time.Microsecond)
 		}
 		return w.n.CC.UpdatePortMappingStatus(w.mapID, models.MappingStatusActive)
 	case "expired":
@@ -487,15 +508,16 @@ func (w *c04World) locate(marker string, expectConsumer bool) string {
 }
 
 type c04Obs struct {
-	Ack              string   `json:"ack"`
-	SendErr          string   `json:"send_err"`
-	Attached         string   `json:"attached_as"`
-	Leaked           []string `json:"victim_markers_read_by_requester"`
-	Injected         []string `json:"victims_that_read_requester_marker"`
-	PeerData         bool     `json:"requester_received_peer_data"`
-	VictimBridgeSeen bool     `json:"racing_requester_met_victim_bridge,omitempty"`
-	Trace            []string `json:"trace"`
-	SetupError       string   `json:"setup_error,omitempty"`
+	Ack                string   `json:"ack"`
+	SendErr            string   `json:"send_err"`
+	Attached           string   `json:"attached_as"`
+	Leaked             []string `json:"victim_markers_read_by_requester"`
+	Injected           []string `json:"victims_that_read_requester_marker"`
+	PeerData           bool     `json:"requester_received_peer_data"`
+	VictimBridgeSeen   bool     `json:"requester_met_existing_bridge,omitempty"`
+	VictimStartedFirst bool     `json:"racing_victim_started_first,omitempty"`
+	Trace              []string `json:"trace"`
+	SetupError         string   `json:"setup_error,omitempty"`
 }
 
 func (w *c04World) requesterRequest() *packet.TunnelOpenRequest {
@@ -531,7 +553,7 @@ func c04RunCell(t *testing.T, run *vk.Run, cell c04Cell, idx int) (obs c04Obs, o
 		return fail("world: %v", err)
 	}
 	// ---- tunnel state at arrival (mapping still active) ----
-	if cell.Tunnel != "none" {
+	if cell.Tunnel == "waiting" || cell.Tunnel == "served" || cell.Tunnel == "remote" {
 		if err := w.victimListenOpen(); err != nil {
 			return fail("victim listen: %v", err)
 		}
@@ -601,17 +623,24 @@ func c04RunCell(t *testing.T, run *vk.Run, cell c04Cell, idx int) (obs c04Obs, o
 	req := w.requesterRequest()
 	if cell.Tunnel == "racing" {
 		// the victim's source open and the requester's open race on the real dispatcher
-		vdone := make(chan error, 1)
+		if err := w.victimListenPrepare(); err != nil {
+			return fail("racing victim listen: %v", err)
+		}
+		vdone := make(chan struct{})
 		r := run.Rand(fmt.Sprintf("race-%d", idx))
-		w.jitter = [2]time.Duration{time.Duration(r.Intn(300)) * time.Microsecond, time.Duration(r.Intn(300)) * time.Microsecond}
+		w.jitter = [2]time.Duration{time.Duration(r.Intn(200)) * time.Microsecond, time.Duration(r.Intn(200)) * time.Microsecond}
 		go func() {
+			defer close(vdone)
 			time.Sleep(w.jitter[0])
-			vdone <- w.victimListenOpen()
+			w.victimListenSend()
 		}()
 		time.Sleep(w.jitter[1])
 		w.open(rq, req)
-		if err := <-vdone; err != nil {
-			return fail("racing victim listen: %v", err)
+		select {
+		case <-vdone:
+		case <-time.After(20 * time.Second):
+			run.Count("watchdog_racing_victim", 1)
+			return fail("racing victim open did not return")
 		}
 	} else {
 		w.open(rq, req)
